@@ -222,7 +222,7 @@ func runC16(r *rt.Runner) {
 	}
 	nGL := len(pool)
 	pool = append(pool, agl.DBNames...)
-	nComp := r.N(8000, 160000)
+	nComp := r.N(30000, 300000)
 	for k := 0; k < nComp; k++ {
 		r.Case("composite", func(c *rt.C) {
 			rng := c.Rand()
@@ -313,7 +313,7 @@ func runC16(r *rt.Runner) {
 			checkIV(c, s)
 		}
 	})
-	nIV := r.N(2000, 80000)
+	nIV := r.N(8000, 120000)
 	for k := 0; k < nIV; k++ {
 		r.Case("isvalid/random", func(c *rt.C) {
 			rng := c.Rand()
